@@ -619,6 +619,9 @@ const iterVisited = "ghost:iter.visited"
 
 func (vc *VC) rangeStart(fr *frame, st *State, in *ssa.Range) Value {
 	xt := FromGo(in.X.Type())
+	if bt, ok := in.X.Type().Underlying().(*types.Basic); ok && bt.Info()&types.IsString != 0 {
+		return vc.stringRangeStart(fr, st, in)
+	}
 	if xt.K != KMap {
 		vc.fail("range over %s unsupported", xt)
 	}
@@ -636,6 +639,9 @@ func (vc *VC) rangeNext(fr *frame, st *State, in *ssa.Next) Value {
 	it := fr.iterOf[in.Iter]
 	if it == nil {
 		vc.fail("Next on unsupported iterator")
+	}
+	if !it.str.IsZero() {
+		return vc.stringRangeNext(fr, st, in, it)
 	}
 	vc.guardCheckComp(fr, st, "mapdom:"+mapKey(it.mt), it.m, false, in)
 	dom := Select(vc.mapComp(st.heap, it.mt, "mapdom"), it.m)
@@ -668,6 +674,40 @@ func (vc *VC) rangeNext(fr *frame, st *State, in *ssa.Next) Value {
 		vc.assumeAllocated(st, val, vt)
 	}
 	return TupleVal{ok, vc.wrap(k, *it.mt.Key), val}
+}
+
+// Range over a string. The iterator is a byte position kept in a ghost component indexed by the iterator (so that it is
+// loop-carried state like any heap location). Next yields ok == position < len, key == position, a rune and advances by
+// the width of its encoding. What is specified of the decoding: a byte below 0x80 is its own rune and one byte wide;
+// otherwise the rune is at least 0x80 (RuneError included) and 1 to 4 bytes wide; the position never passes the end.
+const iterStrPos = "ghost:iter.strpos"
+
+func (vc *VC) stringRangeStart(fr *frame, st *State, in *ssa.Range) Value {
+	s := vc.toTerm(vc.valueOf(fr, in.X))
+	id := vc.newRef(st, in.Name()+":iter")
+	vc.registerComp(iterStrPos, compInfo{Sort: ArrSort(SInt, SInt), Depth: 1, Ghost: true})
+	vc.hset(st, iterStrPos, Store(vc.hget(st.heap, iterStrPos), id, Zero))
+	vc.noteWrite(iterStrPos, id)
+	fr.iterOf[in] = &mapIter{id: id, str: s}
+	return id
+}
+
+func (vc *VC) stringRangeNext(fr *frame, st *State, in *ssa.Next, it *mapIter) Value {
+	pos := vc.script.Define(in.Name()+":pos", Select(vc.hget(st.heap, iterStrPos), it.id))
+	n := vc.strLen(it.str)
+	// facts of every execution: the position is a byte offset into the string
+	vc.assume(st, And(Le(Zero, pos), Le(pos, n)))
+	ok := vc.script.Define(in.Name()+":ok", Lt(pos, n))
+	r := vc.script.Declare(in.Name()+":rune", SInt)
+	w := vc.script.Declare(in.Name()+":width", SInt)
+	b := vc.strAt(it.str, pos)
+	ascii := Lt(b, IntLit(128))
+	vc.assume(st, Implies(ok, And(Le(One, w), Le(w, IntLit(4)), Le(Add(pos, w), n), Le(Zero, r), Le(r, IntLit(0x10FFFF)))))
+	vc.assume(st, Implies(And(ok, ascii), And(Eq(r, b), Eq(w, One))))
+	vc.assume(st, Implies(And(ok, Not(ascii)), Ge(r, IntLit(128))))
+	vc.hset(st, iterStrPos, Store(vc.hget(st.heap, iterStrPos), it.id, Ite(ok, Add(pos, w), pos)))
+	vc.noteWrite(iterStrPos, it.id)
+	return TupleVal{ok, vc.wrap(pos, FromGo(types.Typ[types.Int])), vc.wrap(r, FromGo(types.Typ[types.Int32]))}
 }
 
 // --- slices -------------------------------------------------------------------------------------
